@@ -177,7 +177,7 @@ class Check:
             return
         solve.solve_all(todo, nproc=nproc, timeout_s=timeout_s)
         for ob in todo:
-            if ob.refuted:
+            if ob.refuted and ob.kind != 'probe':
                 self._handle_refuted(ob)
 
     def _handle_refuted(self, ob):
@@ -203,7 +203,8 @@ class Check:
         n = len(obls)
         ground = sum(1 for o in obls if o.ground)
         reach = [o for o in obls if o.kind == 'reach']
-        claims = [o for o in obls if o.kind != 'reach']
+        probes = [o for o in obls if o.kind == 'probe']
+        claims = [o for o in obls if o.kind not in ('reach', 'probe')]
         discharged = sum(1 for o in claims if o.holds)
         refuted = [o for o in claims if o.refuted]
         inconcl = [o for o in claims if not o.holds and not o.refuted]
@@ -269,6 +270,7 @@ class Check:
             'refuted': len(refuted),
             'ground_obligations': ground,
             'reachability_twins': len(reach),
+            'probe_queries': len(probes),
             'evaluations': n + self.feasibility_queries,
             'distinct_nontrivial': distinct,
             'rule': 'one evaluation = one SMT query (obligation, reachability twin or path-feasibility query); an obligation is non-trivial if its formula mentions at least one symbolic variable (ground obligations and twins are not counted); distinct by obligation name (function+configuration+output entry)',
